@@ -10,7 +10,7 @@
    (propagation_depth_bounded); convergence for link graphs with several partners is covered by the
    correspondence only - cyclic_links_diverge shows why no general convergence theorem holds. *)
 From Coq Require Import ZArith List Bool Arith.
-From TV Require Import Common.Harness C20.ListSem C20.ListProofs C20.Model C20.Law C20.Steps C20.Proofs C20.Termination C20.SliceProofs.
+From TV Require Import Common.Harness C20.ListSem C20.ListProofs C20.Model C20.Law C20.Steps C20.Proofs C20.Termination C20.SliceProofs C20.Star C20.StarProofs.
 Import ListNotations.
 Open Scope Z_scope.
 
@@ -58,6 +58,33 @@ Proof.
                       F h MFresh va vb [] 0 (conj Ta (conj Tb I)) Ha).
 Qed.
 Print Assumptions law_holds_without_extended_slices.
+
+(* Several partners: a pool of three objects, object 0 linked mutually to objects 1 and 2 on one
+   trait (a star; relabelled, the chain 1 - 0 - 2): links created and removed one after the other,
+   any history of assignments and of list mutations (all mutators except extended slices) on all
+   twelve traits in between: the whole law at every step, recursion depth 3. *)
+Theorem law_holds_with_two_partners :
+  forall (F : nat) (h : list op) (va vb vc : list val),
+    typed va -> typed vb -> typed vc ->
+    accepts3 (fun mu => replayable_mut mu = true) M3Fresh h ->
+    law_hist 0 [] [va; vb; vc] (run (S (S (S F))) (init_state [va; vb; vc]) h) = [].
+Proof.
+  intros F h va vb vc Ta Tb Tc Ha.
+  exact (star_protocol_law (fun mu => replayable_mut mu = true) (fun mu H => replayable_replay2 mu H)
+                           F h M3Fresh va vb vc [] 0 (conj Ta (conj Tb (conj Tc I))) Ha).
+Qed.
+Print Assumptions law_holds_with_two_partners.
+
+Theorem two_partners_converge :
+  forall (allowed : mut -> Prop), (forall mu, allowed mu -> replay2_ok mu) ->
+  forall F n va vb vc nts o,
+    inv3 (M3Star n) va vb vc -> trans3 allowed (M3Star n) o (M3Star n) ->
+    let r := step (S (S (S F))) (st3 (M3Star n) va vb vc nts) o in
+    sval (ob_vals (snd r)) (0%nat, n) = sval (ob_vals (snd r)) (1%nat, n) /\
+    sval (ob_vals (snd r)) (0%nat, n) = sval (ob_vals (snd r)) (2%nat, n) /\
+    overflow (fst r) = false.
+Proof. exact star_converges. Qed.
+Print Assumptions two_partners_converge.
 
 Theorem mutual_converges :
   forall F n m va vb nts o,
